@@ -97,6 +97,40 @@ def run(ctx):
                 if not src_ok: why = 'failure reported but the source is gone'
                 elif tgt_exists and kind != 'unlink': why = 'failure reported but the incomplete target was left behind'
             if why: viol.append(dict(why='%s, fault %s #%d %s (exit %d): %s' % (label, kind, k, act, r.returncode, why), stderr=r.stderr.decode(errors='replace')[:300]))
+    # ---- invalid input (no fault injected): the invalid source stays, no target appears for it, exit status non-zero;
+    # valid files named in the same run are still replaced.  Every order and format mix: nothing may leak between files.
+    from props.c16 import lz_member
+    def mk(kind):
+        pl = xzgen.gen_data(rng, rng.randrange(1, 3000))
+        if kind == 'xz': return lzma.compress(pl, preset=0), pl, 'xz', True
+        if kind == 'lzma': return lzma.compress(pl, format=lzma.FORMAT_ALONE, filters=[{'id': lzma.FILTER_LZMA1, 'dict_size': 4096}]), pl, 'lzma', True
+        if kind == 'lz': return lz_member(rng, pl), pl, 'lz', True
+        if kind == 'xz-trunc': b = lzma.compress(pl, preset=0); return b[:rng.randrange(1, len(b))], pl, 'xz', False
+        if kind == 'xz-bitflip': b = bytearray(lzma.compress(pl + bytes(40), preset=0)); b[rng.randrange(12, len(b) - 12)] ^= 0x10; return bytes(b), pl, 'xz', False
+        if kind == 'lzma-trailing': return lzma.compress(pl, format=lzma.FORMAT_ALONE, filters=[{'id': lzma.FILTER_LZMA1, 'dict_size': 4096}]) + rng.choice([b'\0', b'junk after the end']), pl, 'lzma', False
+        if kind == 'xz-trailing': return lzma.compress(pl, preset=0) + b'garbage!', pl, 'xz', False
+    kinds_ = ['xz', 'lzma', 'lz', 'xz-trunc', 'xz-bitflip', 'lzma-trailing', 'xz-trailing']
+    for it in range(40 if ctx.quick() else 600):
+        d = os.path.join(td, 'm'); shutil.rmtree(d, ignore_errors=True); os.mkdir(d)
+        pick = [rng.choice(kinds_) for _k in range(rng.choice([1, 2, 2, 3]))]
+        if it < 12: pick = [['lz', 'xz', 'lzma'][it % 3], kinds_[3 + it // 3]]      # every (valid format, kind of invalid file) order once
+        files = []
+        for j, kd in enumerate(pick):
+            b, pl, ext, good = mk(kd); srcp = os.path.join(d, 'f%d.%s' % (j, ext)); open(srcp, 'wb').write(b)
+            files.append((srcp, os.path.join(d, 'f%d' % j), b, pl, good, kd))
+        args = rng.choice([['-d'], ['-d', '-T2'], ['-d', '--no-sync']])
+        r = subprocess.run([xz] + args + [f_[0] for f_ in files], capture_output=True, stdin=subprocess.DEVNULL, timeout=60); n_eval += 1
+        anybad = any(not f_[4] for f_ in files)
+        why = None
+        for srcp, tgt, b, pl, good, kd in files:
+            if good:
+                if os.path.exists(srcp) or not os.path.exists(tgt) or open(tgt, 'rb').read() != pl: why = 'valid %s file was not replaced by its content' % kd
+            else:
+                if not os.path.exists(srcp) or open(srcp, 'rb').read() != b: why = 'invalid source (%s) was removed or changed' % kd
+                elif os.path.exists(tgt): why = 'a target file was left for the invalid source (%s)' % kd
+        if why is None and (r.returncode == 0) == anybad: why = 'exit status %d with %s' % (r.returncode, 'an invalid file' if anybad else 'only valid files')
+        distinct.add(('invalid-input', tuple(pick), r.returncode))
+        if why: viol.append(dict(why='xz %s %s: %s' % (' '.join(args), ' '.join(pick), why), stderr=r.stderr.decode(errors='replace')[:300], files=[f_[2].hex()[:4000] for f_ in files]))
     shutil.rmtree(td, ignore_errors=True)
     ctx.cov['evaluations'] = n_eval
     ctx.cov['distinct_nontrivial'] = len(distinct)
